@@ -1,0 +1,79 @@
+//go:build verif
+
+package home
+
+import (
+	"context"
+	"fmt"
+	"path/filepath"
+
+	"github.com/AdguardTeam/AdGuardHome/internal/client"
+	"github.com/AdguardTeam/AdGuardHome/internal/filtering"
+	"github.com/AdguardTeam/golibs/logutil/slogutil"
+	"gopkg.in/yaml.v3"
+)
+
+// This file is only compiled with the "verif" build tag.  It adds accessors
+// used by the external crash-consistency harness (engine E6 "crashfs",
+// property C14) and changes nothing in the shipped build.
+
+// VerifCrashfsInit points the package-level context at workDir the way
+// initWorkingDir/initConfigFilename do and creates the (empty) persistent
+// client container that [configuration.write] reads, so that the real
+// configuration writer can run without a started node.
+func VerifCrashfsInit(workDir string) (err error) {
+	globalContext.workDir = workDir
+	globalContext.confFilePath = filepath.Join(workDir, "AdGuardHome.yaml")
+
+	if globalContext.clients.storage != nil {
+		return nil
+	}
+
+	globalContext.clients.testing = true
+
+	return globalContext.clients.Init(
+		context.Background(),
+		slogutil.NewDiscardLogger(),
+		nil,
+		client.EmptyDHCP{},
+		nil,
+		nil,
+		&filtering.Config{},
+		newSignalHandler(nil, nil),
+	)
+}
+
+// VerifCrashfsSetUserRules replaces the custom filtering rules held by the
+// in-memory configuration (the size knob of the configuration file).
+func VerifCrashfsSetUserRules(rules []string) {
+	config.Lock()
+	defer config.Unlock()
+
+	config.UserRules = rules
+}
+
+// VerifCrashfsWriteConfig calls the real [configuration.write].
+func VerifCrashfsWriteConfig() (err error) {
+	return config.write(nil)
+}
+
+// VerifCrashfsParseConfig calls the real parseConfig (read, upgrade if
+// necessary and write back, unmarshal, validate) on the file in the working
+// directory.
+func VerifCrashfsParseConfig() (err error) {
+	config.fileData = nil
+
+	return parseConfig()
+}
+
+// VerifCrashfsLoadConfig decodes data the way parseConfig does after the
+// upgrade step and returns a short summary of what was loaded.
+func VerifCrashfsLoadConfig(data []byte) (summary string, err error) {
+	c := &configuration{}
+	err = yaml.Unmarshal(data, c)
+	if err != nil {
+		return "", err
+	}
+
+	return fmt.Sprintf("schema=%d user_rules=%d", c.SchemaVersion, len(c.UserRules)), nil
+}
